@@ -9,7 +9,12 @@
 //! Level A drives the `ChainListener` interface of the monitors exactly as
 //! `ChainTracker::notify_listeners_add/remove` does; level B goes through
 //! `ChainTracker::add_block/remove_block/block_chunk` with real headers and TXOO proofs built from
-//! the tracker's own forward / reverse watches.
+//! the tracker's own forward / reverse watches.  Wire delivery (`Case::wire`) builds the signer the
+//! way vlsd does (`HandlerBuilder`, `HsmdInit`) and delivers every block of the history the way the
+//! chain follower of a deployment does, with protocol messages to the `RootHandler` only
+//! (`chainpool::wire_add` / `wire_remove`: `TipInfo`, `ForwardWatches` / `ReverseWatches`, proof for
+//! exactly the watches of the reply, `BlockChunk`s, `AddBlock` / `RemoveBlock`); the fresh signer it
+//! is compared with connects the best chain through the `ChainTracker` API.
 //! Oracle: after every step the view (getters, serde dump of the monitor `State`, `ListenSlot`) of
 //! every channel equals the view of a fresh signer that connected only the surviving best chain;
 //! connect-then-disconnect restores the previous view; a panic while connecting / disconnecting is
@@ -17,6 +22,7 @@
 
 use crate::chainpool::*;
 use crate::engine::*;
+use crate::props::proto::{Negotiation, ProtoWorld};
 use crate::world::*;
 use lightning_signer::bitcoin::secp256k1::{PublicKey, SecretKey};
 use proptest::prelude::*;
@@ -55,6 +61,41 @@ pub struct Case {
     pub level_b: bool,
     pub chans: Vec<ChanCase>,
     pub steps: Vec<Step>,
+    /// every block of the history is connected / disconnected through protocol messages to the
+    /// root handler of a signer built by `HandlerBuilder` (takes precedence over `level_b`)
+    #[serde(default)]
+    pub wire: bool,
+}
+
+/// How the blocks reach the monitors.
+#[derive(Clone, Copy, Debug, PartialEq, Eq, Hash)]
+enum Mode {
+    /// listener calls on the production monitors
+    A,
+    /// `ChainTracker::add_block` / `remove_block` / `block_chunk`
+    B,
+    /// protocol messages to the root handler
+    Wire,
+}
+
+impl Case {
+    fn mode(&self) -> Mode {
+        if self.wire {
+            Mode::Wire
+        } else if self.level_b {
+            Mode::B
+        } else {
+            Mode::A
+        }
+    }
+    /// the fresh signer that replays the best chain: wire histories are compared with a signer
+    /// driven through the tracker API
+    fn twin_mode(&self) -> Mode {
+        match self.mode() {
+            Mode::Wire => Mode::B,
+            m => m,
+        }
+    }
 }
 
 const AMTS: [u64; 3] = [10_000, 25_000, 400_000];
@@ -71,13 +112,28 @@ struct Sys {
     w: World,
     chans: Vec<ChanTxs>,
     direct: Option<DirectListeners>,
+    /// wire delivery: the handlers serving `w.node`
+    pw: Option<ProtoWorld>,
+    wlog: WireLog,
+    /// wire delivery: the message whose handler panicked last
+    panic_site: Option<&'static str>,
 }
 
 type View = Vec<Vec<(String, Value)>>;
 
 impl Sys {
     fn build(case: &Case) -> Result<Sys, String> {
-        let mut w = World::new(regtest_cfg());
+        Sys::build_as(case, case.mode())
+    }
+
+    fn build_as(case: &Case, mode: Mode) -> Result<Sys, String> {
+        // wire: the signer is built as vlsd builds it (HandlerBuilder over the in-memory store,
+        // HsmdInit with the regtest genesis); the world's helpers act on the node of its handler
+        let pw = if mode == Mode::Wire { Some(ProtoWorld::new(regtest_cfg(), 6, Negotiation::SignerCap)) } else { None };
+        let mut w = match pw.as_ref() {
+            Some(pw) => World::from_proto(pw),
+            None => World::new(regtest_cfg()),
+        };
         let payee = PublicKey::from_secret_key(&w.secp, &SecretKey::from_slice(&[5u8; 32]).unwrap());
         for h in 0u8..4 {
             w.node.add_keysend(payee, phash(h), 2_000_000_000).map_err(|e| format!("keysend: {:?}", e))?;
@@ -104,24 +160,61 @@ impl Sys {
             let revoked = if n >= 1 { Some((n - 1, &contents[n as usize - 1])) } else { None };
             chans.push(ChanTxs::build(&w, &f, (n, &contents[n as usize]), (n, &contents[n as usize]), revoked));
         }
-        let direct = if case.level_b { None } else { Some(DirectListeners::from_node(&w.node)) };
-        Ok(Sys { w, chans, direct })
+        let direct = if mode == Mode::A { Some(DirectListeners::from_node(&w.node)) } else { None };
+        Ok(Sys { w, chans, direct, pw, wlog: WireLog::default(), panic_site: None })
+    }
+
+    fn is_wire(&self) -> bool {
+        self.pw.is_some()
     }
 
     fn add(&mut self, sb: &SimBlock, stream: bool, chunk: usize) -> Deliver {
+        self.add_block(&sb.block, &sb.prev_filter_header, stream, chunk)
+    }
+
+    /// `prev_fh`: filter header of the block below (used by the wire follower only; the tracker
+    /// level reads it from the tracker)
+    fn add_block(&mut self, block: &lightning_signer::bitcoin::Block, prev_fh: &lightning_signer::bitcoin::hash_types::FilterHeader, stream: bool, chunk: usize) -> Deliver {
+        if let Some(pw) = self.pw.as_ref() {
+            return wire_add(&pw.root, block, prev_fh, stream, chunk, &mut self.wlog);
+        }
         match self.direct.as_mut() {
-            Some(d) => d.add(&sb.block, stream, chunk),
-            None => tracker_add(&self.w.node, &sb.block, stream, chunk),
+            Some(d) => d.add(block, stream, chunk),
+            None => tracker_add(&self.w.node, block, stream, chunk),
         }
     }
 
     /// `sim` still holds the block to be removed at its tip
     fn remove(&mut self, sim: &ChainSim, stream: bool, chunk: usize) -> Deliver {
         let sb = sim.blocks.last().expect("tip");
+        if let Some(pw) = self.pw.as_ref() {
+            return wire_remove(&pw.root, &sb.block, sim.prev_headers(), stream, chunk, &mut self.wlog);
+        }
         match self.direct.as_mut() {
             Some(d) => d.remove(&sb.block, stream, chunk),
             None => tracker_remove(&self.w.node, &sb.block, sim.prev_headers(), stream, chunk),
         }
+    }
+
+    /// per-message result classes of the wire deliveries since the last call (each distinct
+    /// (message, result) pair of a delivery counts once)
+    fn flush_wire_classes(&mut self, st: &mut CaseStats) {
+        if self.pw.is_none() {
+            return;
+        }
+        if let Some(site) = self.wlog.panic_site() {
+            self.panic_site = Some(site);
+        }
+        for c in self.wlog.classes() {
+            st.class(c);
+        }
+        if self.wlog.chunks > 0 {
+            st.class_n("wire:BlockChunk:messages", self.wlog.chunks);
+        }
+        if self.wlog.last_watches != (0, 0) {
+            st.class("wire:watches_reply_nonempty");
+        }
+        self.wlog = WireLog::default();
     }
 
     fn view(&self) -> Result<View, String> {
@@ -165,6 +258,29 @@ fn report(ctx: &Ctx, st: &mut CaseStats, v: Violation) -> Result<(), Violation> 
 pub struct C14;
 
 impl C14 {
+    /// Report a failure of `case`.  A failure of a wire history is first looked for in the same
+    /// history delivered through the `ChainTracker` API: if it does not show there with the same
+    /// signature, it is specific to the protocol handlers and the signature gets the suffix `:wire`.
+    fn report_case(&self, ctx: &Ctx, st: &mut CaseStats, case: &Case, mut v: Violation) -> Result<(), Violation> {
+        if case.wire {
+            let mut api = case.clone();
+            api.wire = false;
+            api.level_b = true;
+            let strict = Ctx { id: ctx.id, tier: ctx.tier, seed: ctx.seed, known: Known::default(), strict: true, list_all: false };
+            let mut scratch = CaseStats::default();
+            let r = std::panic::catch_unwind(std::panic::AssertUnwindSafe(|| self.run_inner(&api, &mut scratch, &strict)));
+            let same = matches!(&r, Ok(Err(v2)) if v2.sig == v.sig);
+            st.class(if same { "wire_failure_also_at_tracker_api" } else { "wire_only_failure" });
+            if !same {
+                v.sig.push_str(":wire");
+                v.msg.push_str(" [wire delivery through the root handler; the same history delivered through the ChainTracker API does not fail with this signature]");
+            } else {
+                v.msg.push_str(" [wire delivery; the same history fails alike through the ChainTracker API]");
+            }
+        }
+        report(ctx, st, v)
+    }
+
     /// Name the cause of an abort experimentally: the first candidate sub-block of the aborting
     /// block (see `abort_candidates`) that also aborts a fresh signer on the same chain.
     fn cause(&self, case: &Case, sim: &ChainSim, removal: bool, stream: bool) -> String {
@@ -195,22 +311,26 @@ impl C14 {
     }
 
     /// `sim` holds the aborting block at its tip
-    fn abort(&self, ctx: &Ctx, st: &mut CaseStats, case: &Case, sim: &ChainSim, removal: bool, stream: bool, msg: &str, i: usize, twin: bool) -> Result<(), Violation> {
+    fn abort(&self, ctx: &Ctx, st: &mut CaseStats, case: &Case, sim: &ChainSim, removal: bool, stream: bool, msg: &str, i: usize, twin: bool, site: Option<&'static str>) -> Result<(), Violation> {
         let dir = if removal { "remove" } else { "add" };
         let txs = &sim.blocks.last().expect("tip").txs;
         st.class(format!("abort:{}", dir));
-        let cause = self.cause(case, sim, removal, stream);
+        // the AddBlock handler panics ("add_block") when the tracker refuses a block that is not an
+        // orphan: the block was refused, not mishandled by a monitor
+        let cause = if case.wire && !twin && !removal && msg == "add_block" { "valid-block-refused".to_string() } else { self.cause(case, sim, removal, stream) };
         if std::env::var("VERIF_C14_DEBUG").is_ok() {
             eprintln!("DBG abort:{}:{} kinds={:?} twin={} msg={}", dir, cause, kinds_of(txs), twin, msg);
         }
-        report(
+        self.report_case(
             ctx,
             st,
+            case,
             Violation::new(
                 format!("C14:abort:{}:{}", dir, cause),
                 format!(
-                    "step {}: the signer panicked while {} a block holding {:?}{} (smallest aborting sub-block: {}): {}",
+                    "step {}: the signer panicked{} while {} a block holding {:?}{} (smallest aborting sub-block: {}): {}",
                     i,
+                    site.map(|s| format!(" in the handler of {}", s)).unwrap_or_default(),
                     if removal { "disconnecting" } else { "connecting" },
                     kinds_of(txs),
                     if twin { " (during the replay of the best chain on a fresh signer)" } else { "" },
@@ -226,18 +346,41 @@ impl C14 {
     /// `ChainTracker::remove_block` returned an error for the removal of its own tip with a proof
     /// built from its own reverse watches.  The protocol handler (`Message::RemoveBlock`,
     /// vls-protocol-signer handler.rs) `expect`s this result, i.e. the signer aborts.
-    fn refused_removal(&self, ctx: &Ctx, st: &mut CaseStats, stream: bool, err: &str, txs: &[PoolTx], i: usize) -> Result<(), Violation> {
+    ///
+    /// `wire_external`: wire delivery, where the refusal is the handler's panic itself
+    /// ("remove_block: <error>"); Some(whether the block was streamed).
+    fn refused_removal(&self, ctx: &Ctx, st: &mut CaseStats, case: &Case, stream: bool, err: &str, txs: &[PoolTx], i: usize, wire_external: Option<bool>) -> Result<(), Violation> {
         // a compact request is delivered streamed when the filter has a false positive
-        let external = err.starts_with("[external] ");
-        if !stream && !external {
-            panic!("step {}: tracker refused the compact removal of its tip: {}", i, err);
-        }
+        let external = wire_external.unwrap_or(err.starts_with("[external] "));
         let err = err.trim_start_matches("[external] ");
+        let kind = err.split('(').next().unwrap_or("error").trim().to_string();
+        if !stream && !external {
+            if wire_external.is_none() {
+                panic!("step {}: tracker refused the compact removal of its tip: {}", i, err);
+            }
+            // the follower's proof was built for exactly the watches of the ReverseWatches reply
+            st.class("abort:remove:compact-refused");
+            return self.report_case(
+                ctx,
+                st,
+                case,
+                Violation::new(
+                    format!("C14:abort:remove:compact-removal-refused:{}", kind),
+                    format!(
+                        "step {}: the RemoveBlock handler panicked: ChainTracker::remove_block refused the removal of the signer's tip (block holding {:?}) with {}; \
+                         the proof was built for exactly the watches of the signer's ReverseWatches reply",
+                        i,
+                        kinds_of(txs),
+                        err
+                    ),
+                ),
+            );
+        }
         st.class("abort:remove:streamed-refused");
-        let kind = err.split('(').next().unwrap_or("error").to_string();
-        report(
+        self.report_case(
             ctx,
             st,
+            case,
             Violation::new(
                 format!("C14:abort:remove:streamed-removal-refused:{}", kind),
                 format!(
@@ -249,6 +392,47 @@ impl C14 {
                 ),
             ),
         )
+    }
+}
+
+impl C14 {
+    /// Result of connecting the tip of `sim`: Ok(true) = connected, Ok(false) = the history ends
+    /// here (a known finding fired).
+    fn add_outcome(&self, ctx: &Ctx, st: &mut CaseStats, case: &Case, sim: &ChainSim, stream: bool, d: Deliver, i: usize, twin: bool, site: Option<&'static str>) -> Result<bool, Violation> {
+        match d {
+            Deliver::Ok => Ok(true),
+            Deliver::Refused(e) => panic!("step {}: {}tracker refused a valid block: {}", i, if twin { "twin " } else { "" }, e),
+            Deliver::Panic(m) => {
+                self.abort(ctx, st, case, sim, false, stream, &m, i, twin, site)?;
+                Ok(false)
+            }
+        }
+    }
+
+    /// Result of disconnecting the tip of `sim` (still present in `sim`); `wire_external`:
+    /// Some(streamed?) for a wire delivery.
+    fn remove_outcome(&self, ctx: &Ctx, st: &mut CaseStats, case: &Case, sim: &ChainSim, stream: bool, d: Deliver, i: usize, wire_external: Option<bool>, site: Option<&'static str>) -> Result<bool, Violation> {
+        let ptxs = &sim.blocks.last().expect("tip").txs;
+        match d {
+            Deliver::Ok => Ok(true),
+            Deliver::Refused(e) => {
+                if wire_external.is_some() {
+                    // the follower did not get as far as RemoveBlock (TipInfo names another block,
+                    // an error reply): the harness lost track of the signer
+                    panic!("step {}: wire removal of the tip not possible: {}", i, e);
+                }
+                self.refused_removal(ctx, st, case, stream, &e, ptxs, i, None)?;
+                Ok(false)
+            }
+            Deliver::Panic(m) => {
+                match (wire_external, m.strip_prefix("remove_block: ")) {
+                    // the RemoveBlock handler expect()s the tracker's result
+                    (Some(ext), Some(err)) => self.refused_removal(ctx, st, case, stream, err, ptxs, i, Some(ext))?,
+                    _ => self.abort(ctx, st, case, sim, true, stream, &m, i, false, site)?,
+                }
+                Ok(false)
+            }
+        }
     }
 }
 
@@ -268,6 +452,13 @@ impl Prop for C14 {
          disconnect 1-6 blocks (streamed with probability 0.12).  A connect may be probed (connect, disconnect, compare, connect).  Level A (2/3 of the cases) performs \
          the listener calls and slot bookkeeping of ChainTracker::notify_listeners_* on the production monitors; level B goes through \
          ChainTracker::add_block/remove_block/block_chunk with mined headers and TXOO proofs built from the tracker's own watches.  \
+         Wire delivery (30 % of the cases, overriding the level): the signer is built by HandlerBuilder + HsmdInit as vlsd builds it and every \
+         block of the history is connected / disconnected as the chain follower does it, with protocol messages to the root handler only \
+         (TipInfo, ForwardWatches / ReverseWatches, proof for exactly the watches of the reply, BlockChunk messages of the chosen size for an \
+         ExternalBlock proof, AddBlock / RemoveBlock; requests and replies cross the wire encoding); a streamed connect is now and then \
+         preceded by a streamed orphan (answered with the orphan error code); the fresh signer of the oracle connects the best chain \
+         through the ChainTracker API.  A panic of a handler is an abort; failures that do not show with the same signature when the \
+         same history is delivered through the ChainTracker API carry the signature suffix :wire.  \
          Oracle after every step: view (funding / double-spend / closing depth, is_done, diagnostic, serde dump of the monitor state \
          minus saw_block, forward watches, seen set, txid watches) equals that of a fresh signer that connected only the surviving \
          chain; probe restores the previous view; no panic.  Non-trivial: a disconnect (or probe) of a block that holds >= 2 \
@@ -282,6 +473,8 @@ impl Prop for C14 {
             "blocks are consensus-valid on their chain: no outpoint is spent twice on one chain, parents precede children".into(),
             "level B mirrors the protocol handler, which expect()s the result of ChainTracker::remove_block: an error returned for the removal of the tracker's own tip with a proof built from its own reverse watches counts as an abort".into(),
             "the counterparty's revoked commitment (previous state, properly revoked) is part of the commitment transactions of the quantifier".into(),
+            "wire delivery: the follower takes the filter header of the parent block from its own chain (no protocol message reports it) and the attestation height from TipInfo; it removes a block only if TipInfo names it".into(),
+            "wire delivery: a valid block of the best chain that the AddBlock / RemoveBlock handler answers with a panic (the handlers expect() the tracker's result) is an abort of the signer; histories have no signer restart".into(),
         ]
     }
     fn cases(&self, tier: Tier) -> u32 {
@@ -330,13 +523,13 @@ impl Prop for C14 {
             2 => (prop_oneof![5 => Just(1u8), 3 => Just(2u8), 2 => Just(3u8), 3 => 4u8..=max_depth], prop::bool::weighted(0.12))
                 .prop_map(|(depth, stream)| Step::Disconnect { depth, stream }),
         ];
-        (prop::bool::weighted(0.34), proptest::collection::vec(chan, 1..3), prop::bool::weighted(0.6), proptest::collection::vec(step, 4..max_steps))
-            .prop_map(|(level_b, chans, prefund, mut steps)| {
+        (prop::bool::weighted(0.34), proptest::collection::vec(chan, 1..3), prop::bool::weighted(0.6), proptest::collection::vec(step, 4..max_steps), prop::bool::weighted(0.3))
+            .prop_map(|(level_b, chans, prefund, mut steps, wire)| {
                 if prefund {
                     // most histories start with the funding transactions confirmed
                     steps.insert(0, Step::Connect { txs: vec![TxSel::Funding { c: 0 }, TxSel::Funding { c: 1 }], stream: false, chunk: 0, probe: false });
                 }
-                Case { level_b, chans, steps }
+                Case { level_b, chans, steps, wire }
             })
             .boxed()
     }
@@ -353,44 +546,50 @@ impl Prop for C14 {
         let dis = Step::Disconnect { depth: 1, stream: false };
         let hs = |c| TxSel::HtlcSpend { c, which: vec![0], fee: FeePos::None, merge: false, salt: 0 };
         let mut v = vec![];
-        for level_b in [false, true] {
+        for (level_b, wire) in [(false, false), (true, false), (true, true)] {
             // close and sweep in one block
-            v.push(Case { level_b, chans: vec![chan(vec![])], steps: vec![connect(vec![TxSel::Funding { c: 0 }]), connect(vec![TxSel::HolderCommit { c: 0 }, TxSel::SweepOurs { c: 0, salt: 0 }]), dis.clone()] });
+            v.push(Case { level_b, wire, chans: vec![chan(vec![])], steps: vec![connect(vec![TxSel::Funding { c: 0 }]), connect(vec![TxSel::HolderCommit { c: 0 }, TxSel::SweepOurs { c: 0, salt: 0 }]), dis.clone()] });
             // HTLC spend and second-level spend in one block
             v.push(Case {
                 level_b,
+                wire,
                 chans: vec![chan(vec![vec![h.clone()]])],
                 steps: vec![connect(vec![TxSel::Funding { c: 0 }]), connect(vec![TxSel::HolderCommit { c: 0 }]), connect(vec![hs(0), TxSel::SecondLevel { c: 0, k: 0, salt: 0 }]), dis.clone()],
             });
             // close and first-level HTLC spend in one block
             v.push(Case {
                 level_b,
+                wire,
                 chans: vec![chan(vec![vec![h.clone()]])],
                 steps: vec![connect(vec![TxSel::Funding { c: 0 }]), connect(vec![TxSel::HolderCommit { c: 0 }, hs(0)]), dis.clone()],
             });
             // a first-level HTLC spend connected and disconnected (probe)
             v.push(Case {
                 level_b,
+                wire,
                 chans: vec![chan(vec![vec![h.clone()]])],
                 steps: vec![connect(vec![TxSel::Funding { c: 0 }]), connect(vec![TxSel::CpCommit { c: 0 }]), Step::Connect { txs: vec![hs(0)], stream: false, chunk: 0, probe: true }],
             });
             // a first-level HTLC spend reorged out
             v.push(Case {
                 level_b,
+                wire,
                 chans: vec![chan(vec![vec![h.clone()]])],
                 steps: vec![connect(vec![TxSel::Funding { c: 0 }]), connect(vec![TxSel::HolderCommit { c: 0 }]), connect(vec![hs(0)]), dis.clone()],
             });
             // the counterparty's revoked commitment (with an HTLC) confirms
-            v.push(Case { level_b, chans: vec![chan(vec![vec![h.clone()], vec![]])], steps: vec![connect(vec![TxSel::Funding { c: 0 }]), connect(vec![TxSel::CpRevoked { c: 0 }])] });
+            v.push(Case { level_b, wire, chans: vec![chan(vec![vec![h.clone()], vec![]])], steps: vec![connect(vec![TxSel::Funding { c: 0 }]), connect(vec![TxSel::CpRevoked { c: 0 }])] });
             // a streamed block is disconnected
             v.push(Case {
                 level_b,
+                wire,
                 chans: vec![chan(vec![])],
                 steps: vec![connect(vec![TxSel::Funding { c: 0 }]), Step::Connect { txs: vec![TxSel::Noise { n: 0 }], stream: true, chunk: 100, probe: false }, Step::Disconnect { depth: 1, stream: true }],
             });
             // every transaction in its own block, unwound completely and replayed
             v.push(Case {
                 level_b,
+                wire,
                 chans: vec![chan(vec![vec![h.clone()]])],
                 steps: vec![
                     connect(vec![TxSel::Funding { c: 0 }]),
@@ -413,7 +612,7 @@ impl Prop for C14 {
         let t0 = std::time::Instant::now();
         let r = self.run_inner(case, st, ctx);
         if std::env::var("VERIF_C14_TIMING").is_ok() {
-            eprintln!("TIMING {} ms levelB={} chans={} steps={}", t0.elapsed().as_millis(), case.level_b, case.chans.len(), case.steps.len());
+            eprintln!("TIMING {} ms mode={:?} chans={} steps={}", t0.elapsed().as_millis(), case.mode(), case.chans.len(), case.steps.len());
         }
         r
     }
@@ -421,6 +620,7 @@ impl Prop for C14 {
 
 impl C14 {
     fn run_inner(&self, case: &Case, st: &mut CaseStats, ctx: &Ctx) -> Result<(), Violation> {
+        let mode = case.mode();
         let mut sys = match Sys::build(case) {
             Ok(s) => s,
             Err(e) => {
@@ -432,10 +632,15 @@ impl C14 {
                 return Ok(());
             }
         };
-        let mut twin = Sys::build(case).expect("twin builds like the original");
+        let mut twin = Sys::build_as(case, case.twin_mode()).expect("twin builds like the original");
         let mut sim = ChainSim::new(lightning_signer::bitcoin::Network::Regtest);
-        st.class(if case.level_b { "level_B" } else { "level_A" });
+        st.class(match mode {
+            Mode::A => "level_A",
+            Mode::B => "level_B",
+            Mode::Wire => "wire_delivery",
+        });
         st.class(format!("channels:{}", case.chans.len()));
+        let wire = sys.is_wire();
 
         // the initial views agree (sanity of the twin construction)
         let v0 = sys.view().expect("view");
@@ -467,6 +672,12 @@ impl C14 {
                         }
                     }
                     st.class(if *stream { "connect:streamed" } else { "connect:compact" });
+                    if wire {
+                        st.class(if *stream { "wire:connect:streamed" } else { "wire:connect:compact" });
+                        if relevant >= 1 {
+                            st.class("wire:connect:monitor_relevant_block");
+                        }
+                    }
                     let before = if *probe { Some(sys.view().expect("view")) } else { None };
                     sim.push(block, ptxs.clone());
                     let sb = sim.blocks.last().unwrap().clone();
@@ -475,40 +686,35 @@ impl C14 {
                     }
                     if sys.direct.is_none() && *stream && *chunk % 3 == 0 {
                         // first an orphan twin of the block (it does not build on the tip) is
-                        // streamed: the tracker refuses it, and that must leave nothing behind in
-                        // the monitors (the real block follows, streamed as well)
+                        // streamed: the tracker refuses it (over the wire: SignerError with the
+                        // orphan code), and that must leave nothing behind in the monitors (the real
+                        // block follows, streamed as well)
                         let mut orphan = sb.block.clone();
                         orphan.header.prev_blockhash = { use lightning_signer::bitcoin::hashes::Hash; lightning_signer::bitcoin::BlockHash::from_byte_array([0x0f; 32]) };
-                        match tracker_add(&sys.w.node, &orphan, true, *chunk as usize) {
+                        let d = sys.add_block(&orphan, &sb.prev_filter_header, true, *chunk as usize);
+                        sys.flush_wire_classes(st);
+                        match d {
                             Deliver::Refused(_) => st.class("refused_streamed_orphan_before_connect"),
                             Deliver::Ok => panic!("step {}: tracker accepted an orphan block", i),
                             Deliver::Panic(m) => {
-                                self.abort(ctx, st, case, &sim, false, true, &m, i, false)?;
+                                self.abort(ctx, st, case, &sim, false, true, &m, i, false, sys.panic_site)?;
                                 break 'steps;
                             }
                         }
                     }
-                    match sys.add(&sb, *stream, *chunk as usize) {
-                        Deliver::Ok => {}
-                        Deliver::Refused(e) => panic!("step {}: tracker refused a valid block: {}", i, e),
-                        Deliver::Panic(m) => {
-                            self.abort(ctx, st, case, &sim, false, *stream, &m, i, false)?;
-                            break 'steps;
-                        }
+                    let d = sys.add(&sb, *stream, *chunk as usize);
+                    sys.flush_wire_classes(st);
+                    if !self.add_outcome(ctx, st, case, &sim, *stream, d, i, false, sys.panic_site)? {
+                        break 'steps;
                     }
                     shape.push((0, cats.clone()));
                     if let Some(before) = before {
                         st.class("probe");
-                        match sys.remove(&sim, *stream, *chunk as usize) {
-                            Deliver::Ok => {}
-                            Deliver::Refused(e) => {
-                                self.refused_removal(ctx, st, *stream, &e, &ptxs, i)?;
-                                break 'steps;
-                            }
-                            Deliver::Panic(m) => {
-                                self.abort(ctx, st, case, &sim, true, *stream, &m, i, false)?;
-                                break 'steps;
-                            }
+                        let d = sys.remove(&sim, *stream, *chunk as usize);
+                        let ext = if wire { Some(sys.wlog.chunks > 0) } else { None };
+                        sys.flush_wire_classes(st);
+                        if !self.remove_outcome(ctx, st, case, &sim, *stream, d, i, ext, sys.panic_site)? {
+                            break 'steps;
                         }
                         if relevant >= 2 || has_close {
                             nontrivial = true;
@@ -518,11 +724,12 @@ impl C14 {
                         if let Some((ci, f, a, b)) = diff_views(&before, &after) {
                             st.class("probe_not_identity");
                             if std::env::var("VERIF_C14_DEBUG").is_ok() {
-                                eprintln!("DBG2 probe {} levelB={} kinds={:?} a={} b={}", f, case.level_b, kinds_of(&ptxs), a, b);
+                                eprintln!("DBG2 probe {} mode={:?} kinds={:?} a={} b={}", f, mode, kinds_of(&ptxs), a, b);
                             }
-                            report(
-            ctx,
+                            self.report_case(
+                                ctx,
                                 st,
+                                case,
                                 Violation::new(
                                     format!("C14:connect-disconnect-not-identity:{}", f),
                                     format!("step {}: channel {}: connecting and disconnecting a block holding {:?} changed {} from {} to {}", i, ci, kinds_of(&ptxs), f, a, b),
@@ -530,23 +737,16 @@ impl C14 {
                             )?;
                             break 'steps;
                         }
-                        match sys.add(&sb, *stream, *chunk as usize) {
-                            Deliver::Ok => {}
-                            Deliver::Refused(e) => panic!("step {}: tracker refused a valid block: {}", i, e),
-                            Deliver::Panic(m) => {
-                                self.abort(ctx, st, case, &sim, false, *stream, &m, i, false)?;
-                                break 'steps;
-                            }
+                        let d = sys.add(&sb, *stream, *chunk as usize);
+                        sys.flush_wire_classes(st);
+                        if !self.add_outcome(ctx, st, case, &sim, *stream, d, i, false, sys.panic_site)? {
+                            break 'steps;
                         }
                     }
                     // the twin connects the same block (compact)
-                    match twin.add(&sb, false, 0) {
-                        Deliver::Ok => {}
-                        Deliver::Refused(e) => panic!("step {}: twin tracker refused a valid block: {}", i, e),
-                        Deliver::Panic(m) => {
-                            self.abort(ctx, st, case, &sim, false, false, &m, i, true)?;
-                            break 'steps;
-                        }
+                    let d = twin.add(&sb, false, 0);
+                    if !self.add_outcome(ctx, st, case, &sim, false, d, i, true, None)? {
+                        break 'steps;
                     }
                 }
                 Step::Disconnect { depth, stream } => {
@@ -556,6 +756,9 @@ impl C14 {
                     }
                     st.class(format!("reorg_depth:{}", d));
                     st.class(if *stream { "disconnect:streamed" } else { "disconnect:compact" });
+                    if wire {
+                        st.class(if *stream { "wire:disconnect:streamed" } else { "wire:disconnect:compact" });
+                    }
                     max_reorg = max_reorg.max(d);
                     let mut removed = vec![];
                     for _ in 0..d {
@@ -563,20 +766,18 @@ impl C14 {
                         let cats = block_categories(&ptxs);
                         let relevant = ptxs.iter().filter(|t| category(t.kind).is_some()).count();
                         let has_close = ptxs.iter().any(|t| matches!(category(t.kind), Some("close") | Some("mutual")));
-                        match sys.remove(&sim, *stream, 0) {
-                            Deliver::Ok => {}
-                            Deliver::Refused(e) => {
-                                self.refused_removal(ctx, st, *stream, &e, &ptxs, i)?;
-                                break 'steps;
-                            }
-                            Deliver::Panic(m) => {
-                                self.abort(ctx, st, case, &sim, true, *stream, &m, i, false)?;
-                                break 'steps;
-                            }
+                        let r = sys.remove(&sim, *stream, 0);
+                        let ext = if wire { Some(sys.wlog.chunks > 0) } else { None };
+                        sys.flush_wire_classes(st);
+                        if !self.remove_outcome(ctx, st, case, &sim, *stream, r, i, ext, sys.panic_site)? {
+                            break 'steps;
                         }
                         if relevant >= 2 || has_close {
                             nontrivial = true;
                             st.class(if has_close { "reorg_across_close" } else { "reorg_across_2+_relevant" });
+                            if wire {
+                                st.class("wire:reorg_across_close_or_2+_relevant");
+                            }
                         }
                         if relevant >= 1 {
                             st.class(format!("reorg_across:{}", cats));
@@ -589,15 +790,13 @@ impl C14 {
                         trace.push(json!({"step": i, "disconnect": removed, "height": sim.height(), "stream": stream}));
                     }
                     // a fresh signer connects the surviving chain
-                    twin = Sys::build(case).expect("twin builds like the original");
+                    twin = Sys::build_as(case, case.twin_mode()).expect("twin builds like the original");
                     for (k, sb) in sim.blocks.iter().enumerate() {
-                        match twin.add(sb, false, 0) {
-                            Deliver::Ok => {}
-                            Deliver::Refused(e) => panic!("step {}: twin tracker refused a valid block: {}", i, e),
-                            Deliver::Panic(m) => {
-                                let mut upto = sim.clone();
-                                upto.blocks.truncate(k + 1);
-                                self.abort(ctx, st, case, &upto, false, false, &m, i, true)?;
+                        let r = twin.add(sb, false, 0);
+                        if !matches!(r, Deliver::Ok) {
+                            let mut upto = sim.clone();
+                            upto.blocks.truncate(k + 1);
+                            if !self.add_outcome(ctx, st, case, &upto, false, r, i, true, None)? {
                                 break 'steps;
                             }
                         }
@@ -609,11 +808,12 @@ impl C14 {
             if let Some((ci, f, va, vb)) = diff_views(&a, &b) {
                 st.class("view_differs");
                 if std::env::var("VERIF_C14_DEBUG").is_ok() {
-                    eprintln!("DBG2 view-differs {} levelB={} step={:?} a={} b={}", f, case.level_b, step, va, vb);
+                    eprintln!("DBG2 view-differs {} mode={:?} step={:?} a={} b={}", f, mode, step, va, vb);
                 }
-                report(
-            ctx,
+                self.report_case(
+                    ctx,
                     st,
+                    case,
                     Violation::new(
                         format!("C14:view-differs-from-best-chain-replay:{}", f),
                         format!(
@@ -632,10 +832,17 @@ impl C14 {
             }
         }
         st.class(format!("max_reorg_depth:{}", max_reorg));
-        st.sample = Some(json!({"level": if case.level_b { "B" } else { "A" }, "chans": case.chans, "trace": trace}));
+        st.sample = Some(json!({"level": match mode { Mode::A => "A", Mode::B => "B", Mode::Wire => "wire" }, "chans": case.chans, "trace": trace}));
         if nontrivial {
             st.class("nontrivial");
-            st.nontrivial_shape((case.level_b, shape));
+            if wire {
+                st.class("wire:nontrivial");
+            }
+            // (false, _) / (true, _) as before the wire mode existed; wire histories hash apart
+            match mode {
+                Mode::Wire => st.nontrivial_shape(("wire", shape)),
+                _ => st.nontrivial_shape((case.level_b, shape)),
+            }
         }
         Ok(())
     }
